@@ -315,7 +315,12 @@ SHEADER = "From Coq Require Import List NArith ZArith Bool.\nImport ListNotation
 def validate_streams(res, runs, name, family="conn"):
     import re
     items = [(r, stream_events(r)) for r in runs]
-    items = [(r, e) for r, e in items if e]
+    # a trace of tens of thousands of stream events (the stalled-subscriber scenario with 9000 values) is too large a Coq
+    # term to parse; such a run is judged by the direct oracle only
+    big = [r for r, e in items if e and len(e) > 15000]
+    if big:
+        res.add_cov(oversized_stream_traces_not_replayed=len(big))
+    items = [(r, e) for r, e in items if e and len(e) <= 15000]
     if not items:
         return [], items
     groups = [items[i::16] for i in range(16)]
